@@ -550,3 +550,14 @@ Qed.
 
 Lemma routes_model_succeed_2xx : routes_succeed_2xx routes_model = true.
 Proof. vm_compute. reflexivity. Qed.
+
+(* ------------------------------------------------------------------------------------------ *)
+(** * 7. Handler-side panic sites *)
+Lemma sites_ok_sound : forall ss, sites_ok ss = true -> forall f fn k e, In (f, fn, k, e) ss ->
+  exists c, In (f, fn, k, e, c) site_allow_list.
+Proof.
+  intros ss H f fn k e Hin. unfold sites_ok in H. rewrite forallb_forall in H. specialize (H _ Hin).
+  cbn [site_allowed] in H. apply existsb_exists in H as [[[[[f' fn'] k'] e'] c] [Hin' Heq]].
+  apply andb_true_iff in Heq as [Heq He]. apply andb_true_iff in Heq as [Heq Hk]. apply andb_true_iff in Heq as [Hf Hfn].
+  apply String.eqb_eq in Hf, Hfn, Hk, He. subst. exists c. exact Hin'.
+Qed.
